@@ -80,6 +80,18 @@ class Oracle(simcheck.BaseOracle):
                 got = b.strategy_orders(st, matched_only=True)
                 if [id(o) for o in got] != [id(o) for o in exp if o.size_matched > 0]:
                     self.add("filter:matched_only", "%s strategy %d matched_only: %s" % (where, st.sidx, [o._vidx for o in got]))
+                from flumine.order.order import OrderStatus
+                from flumine.order.trade import TradeStatus
+                live_set = [OrderStatus.EXECUTABLE, OrderStatus.PENDING, OrderStatus.CANCELLING, OrderStatus.UPDATING, OrderStatus.REPLACING]
+                filters = [({"order_status": [OrderStatus.EXECUTION_COMPLETE]}, lambda o: o.status == OrderStatus.EXECUTION_COMPLETE),
+                           ({"order_status": live_set}, lambda o: o.status in live_set),
+                           ({"matched_only": True}, lambda o: o.size_matched > 0),
+                           ({"order_status": live_set, "matched_only": True}, lambda o: o.status in live_set and o.size_matched > 0)]
+
+                def same(view, expected, what):
+                    if [id(o) for o in view] != [id(o) for o in expected]:
+                        self.add(what, "%s market %s strategy %d: %s returned %s expected %s" % (
+                            where, market.market_id, st.sidx, what, [o._vidx for o in view], [o._vidx for o in expected]))
                 sels = {(o.selection_id, o.handicap) for o in sh}
                 for sel, hc in sels:
                     e2 = [o for o in exp if o.selection_id == sel and o.handicap == hc]
@@ -87,17 +99,37 @@ class Oracle(simcheck.BaseOracle):
                     if [id(o) for o in g2] != [id(o) for o in e2]:
                         self.add("view:strategy-selection", "%s strategy %d sel %s: view %s expected %s" % (
                             where, st.sidx, sel, [o._vidx for o in g2], [o._vidx for o in e2]))
+                    for kw, pred in filters:
+                        same(b.strategy_selection_orders(st, sel, hc, **kw), [o for o in e2 if pred(o)], "filter:strategy-selection")
                 for ci, cl in enumerate(clients):
                     e3 = [o for o in exp if self.client_at.get(id(o), o.client) is cl]
                     g3 = b.client_strategy_orders(cl, st)
                     if [id(o) for o in g3] != [id(o) for o in e3]:
                         self.add("view:client-strategy", "%s client %d strategy %d: view %s expected %s" % (
                             where, ci, st.sidx, [o._vidx for o in g3], [o._vidx for o in e3]))
+                    for kw, pred in filters:
+                        same(b.client_strategy_orders(cl, st, **kw), [o for o in e3 if pred(o)], "filter:client-strategy")
+                # the trades of the strategy, in the order in which their first order entered the blotter; by status
+                etr = []
+                for o in exp:
+                    if o.trade not in etr:
+                        etr.append(o.trade)
+                if [id(t) for t in b.strategy_trades(st)] != [id(t) for t in etr]:
+                    self.add("view:strategy-trades", "%s market %s strategy %d: strategy_trades %s expected %s" % (
+                        where, market.market_id, st.sidx, [t._vidx for t in b.strategy_trades(st)], [t._vidx for t in etr]))
+                for tst in (TradeStatus.LIVE, TradeStatus.COMPLETE, TradeStatus.PENDING):
+                    if [id(t) for t in b.strategy_trades(st, trade_status=[tst])] != [id(t) for t in etr if t.status == tst]:
+                        self.add("filter:strategy-trades", "%s market %s strategy %d: strategy_trades(%s)" % (where, market.market_id, st.sidx, tst.name))
             for ci, cl in enumerate(clients):
                 e4 = [o for o in sh if self.client_at.get(id(o), o.client) is cl]
                 g4 = b.client_orders(cl)
                 if [id(o) for o in g4] != [id(o) for o in e4]:
                     self.add("view:client", "%s client %d: view %s expected %s" % (where, ci, [o._vidx for o in g4], [o._vidx for o in e4]))
+                for kw, pred in [({"order_status": [OrderStatus.EXECUTION_COMPLETE]}, lambda o: o.status == OrderStatus.EXECUTION_COMPLETE),
+                                 ({"matched_only": True}, lambda o: o.size_matched > 0)]:
+                    gv = b.client_orders(cl, **kw)
+                    if [id(o) for o in gv] != [id(o) for o in e4 if pred(o)]:
+                        self.add("filter:client", "%s client %d %s: view %s" % (where, ci, sorted(kw), [o._vidx for o in gv]))
             trades = []
             for o in sh:
                 if o.trade not in trades:
